@@ -98,7 +98,9 @@ def build():
     def save_all(I, env, args, kwargs):
         emit(I, "save_all", data=kwargs.get("data", args[0] if args else NONE))
         return NONE
-    C.ext("DataManager.save_all", model=save_all, trusted_reason="persistence is C15")
+    C.ext("DataManager.save_all", model=save_all,
+          trusted_reason="client view of DataManager.save_all: the dict handed over becomes the data the writer thread "
+                         "saves (C15's contracts on save_all / _writing_thread, re-checked in this run as C20m)")
     common.declare_noop(C, "DigitalOutput", "enable", "disable", reason="coin inhibit output; not credit state")
     common.declare_noop(C, "SwitchController", "remove_switch_handler_by_keys",
                         reason="switch handler registry (C03); not credit state")
@@ -643,6 +645,9 @@ def build_extra():
     c15 = C15.build()
     c15.pid = "C20m"
     c15.replay_pid = "C15"
+    # ... and the earnings audits are handed to the data manager with save_all: 'the data handed in is the latest data and a
+    # write is pending' (save_all), 'whenever no write is pending and none has failed the file holds the latest data'
+    # (_writing_thread D1-D3, sequential under its rely) are C15's contracts on mpf/core/data_manager.py, restricted
     c15.only_verify = ["MachineVariables.get_machine_var", "MachineVariables.set_machine_var",
-                       "MachineVariables.configure_machine_var"]
+                       "MachineVariables.configure_machine_var", "DataManager.save_all", "DataManager._writing_thread"]
     return [c06, setup_set(), c16, c01, c03, c15]
